@@ -20,7 +20,9 @@ EXPLANATION = (
     "C02.3 no Python-side state: environment and wrapper methods contain no forbidden callee, no attribute/global/module-container "
     "mutation, and every Python `if` branches on static configuration only (tracer safety). C02.4 size accounting: the observation "
     "size computed in __init__ equals the symbolic sum of the sizes of the concatenated parts under every flag combination; G1: the "
-    "advertised OBSERVATION_SIZE equals the sum of the part sizes read from jaxtyping annotations. NOT decided: membership along "
+    "advertised OBSERVATION_SIZE equals the sum of the part sizes read from jaxtyping annotations. C02.7 the reset state itself (which no clip() "
+    "has seen): under the default configuration the literal range initial() draws from, pushed through observation(), lies inside the declared "
+    "bounds (interval evaluation over literals and constructor defaults). NOT decided: membership along "
     "trajectories, NaN/finiteness, dtypes, action_space.sample (C14)."
 )
 ASSUMPTIONS = [
@@ -579,8 +581,191 @@ def check_declared_boxes(s, rule="C02.6", classes=None):
     return n
 
 
+# ----------------------------------------------------------------------------- C02.7
+def _num_ast(e):
+    """a constructor default written as a numeric expression (literals, pi, + - * / **), or None"""
+    import math
+    if isinstance(e, ast.Constant) and isinstance(e.value, (int, float)) and not isinstance(e.value, bool):
+        return float(e.value)
+    if isinstance(e, ast.Attribute) and e.attr in ("pi", "inf") and isinstance(e.value, ast.Name):
+        return math.pi if e.attr == "pi" else math.inf
+    if isinstance(e, ast.UnaryOp) and isinstance(e.op, (ast.USub, ast.UAdd)):
+        v = _num_ast(e.operand)
+        return None if v is None else (-v if isinstance(e.op, ast.USub) else v)
+    if isinstance(e, ast.BinOp):
+        a, b = _num_ast(e.left), _num_ast(e.right)
+        if a is None or b is None:
+            return None
+        f = {ast.Add: lambda: a + b, ast.Sub: lambda: a - b, ast.Mult: lambda: a * b, ast.Div: lambda: a / b, ast.Pow: lambda: a ** b}.get(type(e.op))
+        try:
+            return None if f is None else f()
+        except (OverflowError, ZeroDivisionError, ValueError):
+            return None
+    return None
+
+
+def _num(n, env, attrs, depth=0):
+    """numeric value (float, or list of floats for a literal vector) of a node under the default configuration, or None"""
+    import math
+    if depth > 12 or not isinstance(n, tuple) or not n:
+        return None
+    if n[0] == "const":
+        return float(n[1]) if isinstance(n[1], (int, float)) and not isinstance(n[1], bool) else None
+    if n[0] == "param":
+        return env.get(n[1])
+    if n[0] == "global":
+        return {"jax.numpy.pi": math.pi, "math.pi": math.pi, "numpy.pi": math.pi, "jax.numpy.inf": math.inf, "math.inf": math.inf, "numpy.inf": math.inf}.get(n[1])
+    if n[0] == "attr" and n[1] == ("param", "self"):
+        return _num(attrs[n[2]], env, attrs, depth + 1) if n[2] in attrs else None
+    if n[0] in ("list", "tuple"):
+        vs = [_num(x, env, attrs, depth + 1) for x in n[1]]
+        return None if any(v is None or isinstance(v, list) for v in vs) else vs
+    if n[0] == "call" and n[1] in (("global", "jax.numpy.array"), ("global", "jax.numpy.asarray"), ("global", "float")) and n[2]:
+        return _num(n[2][0], env, attrs, depth + 1)
+    if n[0] == "un" and n[1] in ("USub", "UAdd"):
+        v = _num(n[2], env, attrs, depth + 1)
+        if v is None or n[1] == "UAdd":
+            return v
+        return [-x for x in v] if isinstance(v, list) else -v
+    if n[0] == "bin" and n[1] in ("Add", "Sub", "Mult", "Div", "Pow"):
+        a, b = _num(n[2], env, attrs, depth + 1), _num(n[3], env, attrs, depth + 1)
+        if a is None or b is None:
+            return None
+        f = {"Add": lambda x, y: x + y, "Sub": lambda x, y: x - y, "Mult": lambda x, y: x * y, "Div": lambda x, y: x / y, "Pow": lambda x, y: x ** y}[n[1]]
+        try:
+            if isinstance(a, list) or isinstance(b, list):
+                la = a if isinstance(a, list) else [a] * len(b)
+                lb = b if isinstance(b, list) else [b] * len(la)
+                return [f(x, y) for x, y in zip(la, lb)] if len(la) == len(lb) else None
+            return f(a, b)
+        except (ZeroDivisionError, OverflowError, ValueError):
+            return None
+    return None
+
+
+UNIFORM_SIG = ("key", "shape", "dtype", "minval", "maxval")
+
+
+def _uniform_range(n, env, attrs):
+    """(lo, hi, size) of a jax.random.uniform call under the default configuration (size None = scalar draw), or None"""
+    if not (isinstance(n, tuple) and n and n[0] == "call" and n[1] == ("global", "jax.random.uniform")):
+        return None
+    a = dict(zip(UNIFORM_SIG, n[2]))
+    a.update({k: v for k, v in n[3] if k is not None})
+    lo = _num(a["minval"], env, attrs) if "minval" in a else 0.0
+    hi = _num(a["maxval"], env, attrs) if "maxval" in a else 1.0
+    size = None
+    if "shape" in a:
+        sh = a["shape"]
+        if isinstance(sh, tuple) and sh[0] in ("tuple", "list"):
+            dims = [_num(x, env, attrs) for x in sh[1]]
+            if len(dims) > 1 or any(d is None for d in dims):
+                return None
+            size = int(dims[0]) if dims else None
+        else:
+            return None
+    if lo is None or hi is None:
+        return None
+    return lo, hi, size
+
+
+def check_initial_inside(s, rule="C02.7"):
+    """"the observation of every state reachable from a reset" starts with the reset state itself, which no clip() has seen: under the
+    DEFAULT configuration the range initial() draws the state from, pushed through observation() (cos / sin -> [-1, 1], a state
+    component -> its range), lies inside the declared observation_space. Interval evaluation over literal ranges and constructor
+    defaults only; anything else is counted as undecided."""
+    P = s.prog
+    self_ = ("param", "self")
+    for cls in ("MountainCar", "ContinuousMountainCar", "Acrobot", "Pendulum", "CartPole"):
+        b = s.builder(inline=set())
+        nz = Normalizer(b)
+        init = P.cls(cls).methods.get("__init__")
+        if init is None:
+            raise AnalysisError(f"{cls}.__init__ vanished")
+        pos = init.args.posonlyargs + init.args.args
+        env = {}
+        for a, d in zip(pos[len(pos) - len(init.args.defaults):], init.args.defaults):
+            v = _num_ast(d)
+            if v is not None:
+                env[a.arg] = v
+        for a, d in zip(init.args.kwonlyargs, init.args.kw_defaults):
+            v = _num_ast(d) if d is not None else None
+            if v is not None:
+                env[a.arg] = v
+        pi = live(s.paths(b, cls, "__init__"))
+        if not pi:
+            raise AnalysisError(f"{cls}.__init__: no path")
+        attrs = pi[0].self_attrs
+        f = fields(attrs.get("observation_space"))
+        lo_b, hi_b = _num(f.get("arg:low"), env, attrs), _num(f.get("arg:high"), env, attrs)
+        loc = s.loc(cls, "initial")
+        if not isinstance(lo_b, list) or not isinstance(hi_b, list) or len(lo_b) != len(hi_b):
+            s.undecide(rule, cls, "the declared bounds have no numeric value under the default configuration")
+            continue
+        p0 = one(s.paths(b, cls, "initial"), f"{cls}.initial")
+        y = fields(p0.ret).get("y") if isinstance(p0.ret, tuple) and p0.ret and p0.ret[0] == "record" else None
+        if y is None:
+            raise AnalysisError(f"{cls}.initial does not build a state record with a field y")
+        # ranges of the components of y
+        ranges = None
+        u = _uniform_range(y, env, attrs)
+        if u is not None and u[2] is not None:
+            lo, hi, k = u
+            la = lo if isinstance(lo, list) else [lo] * k
+            ha = hi if isinstance(hi, list) else [hi] * k
+            if len(la) == k and len(ha) == k:
+                ranges = list(zip(la, ha))
+        elif isinstance(y, tuple) and y[0] == "call" and y[1] in (("global", "jax.numpy.asarray"), ("global", "jax.numpy.array")) and y[2] and y[2][0][0] in ("list", "tuple"):
+            ranges = []
+            for c in y[2][0][1]:
+                uc = _uniform_range(c, env, attrs)
+                v = _num(c, env, attrs)
+                if uc is not None and uc[2] is None and not isinstance(uc[0], list) and not isinstance(uc[1], list):
+                    ranges.append((uc[0], uc[1]))
+                elif isinstance(v, float):
+                    ranges.append((v, v))
+                else:
+                    ranges = None
+                    break
+        if ranges is None:
+            s.undecide(rule, cls, f"the initial state is not a literal uniform draw: {show(y, maxlen=100)}")
+            continue
+        state = ("record", P.cls(cls + "State").qualname, (("y", y), ("t", ("param", "$t"))))
+        po = one(s.paths(b, cls, "observation", binding={"state": state}), f"{cls}.observation")
+        obs = vector(nz, po.ret)
+        if obs is None and po.ret == y:
+            obs = [("item", y, i) for i in range(len(ranges))]
+        if obs is None or len(obs) != len(hi_b):
+            s.undecide(rule, cls, f"the observation of the initial state is not a literal vector of {len(hi_b)} components: {show(po.ret, maxlen=100)}")
+            continue
+        ycomps = list(y[2][0][1]) if ranges is not None and u is None else None
+
+        def interval(c):
+            if isinstance(c, tuple) and c and c[0] == "item" and c[1] == y and isinstance(c[2], int) and 0 <= c[2] < len(ranges):
+                return ranges[c[2]]
+            if ycomps is not None and c in ycomps:
+                return ranges[ycomps.index(c)]
+            if isinstance(c, tuple) and c and c[0] == "call" and c[1] in (("global", "jax.numpy.cos"), ("global", "jax.numpy.sin")):
+                return (-1.0, 1.0)
+            v = _num(c, env, attrs)
+            return (v, v) if isinstance(v, float) else None
+
+        for i, c in enumerate(obs):
+            iv = interval(c)
+            con = f"{cls}.initial -> observation[{i}]"
+            if iv is None:
+                s.undecide(rule, con, f"no interval for {show(c, maxlen=80)}")
+                continue
+            iv = (min(iv), max(iv))  # an inverted uniform range still draws from within its two ends
+            ok = lo_b[i] <= iv[0] and iv[1] <= hi_b[i]
+            s.ob(rule, con, ok, "under the default configuration the reset state's observation component lies inside the declared bounds", loc, key="initial-inside",
+                 detail=f"initial range [{iv[0]:g}, {iv[1]:g}], declared [{lo_b[i]:g}, {hi_b[i]:g}]",
+                 necessary_for="the observation of every state reachable from a reset - the reset state first - is a member of the declared observation space")
+
+
 def check(s):
     check_bounds(s)
+    check_initial_inside(s)
     check_declared_boxes(s)
     check_kinds(s)
     check_purity(s)
@@ -595,5 +780,5 @@ def check(s):
     check_rescale(s, "C02.5")
     check_constructors(s, "C02.5")
     check_delegation(s, "C02.5", ["observation", "action_mask", "initial"])
-    for r_, n_ in (("C02.1", 14), ("C02.2", 80), ("C02.3", 300), ("C02.4", 20), ("C02.5", 60), ("C02.6", 20)):
+    for r_, n_ in (("C02.1", 14), ("C02.2", 80), ("C02.3", 300), ("C02.4", 20), ("C02.5", 60), ("C02.6", 20), ("C02.7", 17)):
         s.floor(r_, n_)
